@@ -1,7 +1,7 @@
 (* Pinned statements of C09 (generated once by tools/mkpins.py from coq/props/C09.v, then committed). *)
 From DV Require Import Model.Base Model.NameCheck Model.Parser Model.Header Model.Readers Model.Uncompress
   Model.Mutate Spec.NameSpec Spec.PacketSpec Spec.RecordSpec Proofs.Hoare Proofs.HeaderBits Proofs.InsertLemmas
-  Proofs.WalkValues Proofs.SetTtl props.C09.
+  Spec.PlainSpec Proofs.WalkValues Proofs.SetTtl Proofs.WalkSkip Proofs.PlainWf Proofs.InsertSpec props.C09.
 Check (C09_insert_appends : forall sec rr v it s',
   insert_core sec rr (v, it) = (s', Ok tt) ->
   exists p1 ins,
@@ -37,3 +37,28 @@ Check (C09_set_ttl_without_it_refuted : exists v v' it,
     (exists l, walk_views v SAnswer = Ok l /\ map view_name l = [[97]; [98]]%N) /\
     (exists l', walk_views v' SAnswer = Ok l' /\ map view_name l' = [[97]; [99]]%N)).
 Print Assumptions C09_set_ttl_without_it_refuted.
+Check (C09_insert_effect : forall p v it sec rx s',
+  bytes_ok p -> parse p = Ok v -> plain_rr_ok rx -> sec = SAnswer \/ sec = SNameServers \/ sec = SAdditional ->
+  (sec <> SAdditional -> exists w, u16_at p 2 w /\ N.land w 32768 = 32768%N) ->
+  m_insert_rr sec (plain_record rx) (v, it) = (s', Ok tt) ->
+  exists q qls qt A Nn R,
+    let o1 := 12 + length (wire_of_labels qls) + 4 in
+    uncompress p = Ok q /\
+    reading q qls qt (place o1 A) (place (o1 + length (cat A)) Nn) (place (o1 + length (cat A) + length (cat Nn)) R) /\
+    let A' := ext_a sec rx A in let N' := ext_n sec rx Nn in let R' := ext_r sec rx R in
+    let z := pp_packet (fst s') in
+    q = build (firstn 12 q) qls qt A Nn R /\ z = build (firstn 12 z) qls qt A' N' R' /\
+    bytes_ok z /\ wf_packet z /\
+    reading z qls qt (place o1 A') (place (o1 + length (cat A')) N') (place (o1 + length (cat A') + length (cat N')) R') /\
+    snd s' = it /\
+    exists f, parse z = Ok f /\
+      pp_offset_question (fst s') = pp_offset_question f /\ pp_offset_answers (fst s') = pp_offset_answers f /\
+      pp_offset_nameservers (fst s') = pp_offset_nameservers f /\ pp_offset_additional (fst s') = pp_offset_additional f /\
+      pp_offset_edns (fst s') = pp_offset_edns f /\ pp_edns_count (fst s') = pp_edns_count f /\
+      pp_ext_rcode (fst s') = pp_ext_rcode f /\ pp_edns_version (fst s') = pp_edns_version f /\
+      pp_ext_flags (fst s') = pp_ext_flags f /\ pp_max_payload (fst s') = pp_max_payload f /\
+      pp_maybe_compressed (fst s') = false /\ pp_cached (fst s') = None).
+Print Assumptions C09_insert_effect.
+Check (C09_accepted_records_insertable : forall p0 sec seen off off1 seen1, bytes_ok p0 -> rr_wf p0 sec seen off off1 seen1 ->
+  exists r x, rv_off r = off /\ record_at p0 r off1 /\ rdata_at p0 r x /\ (is_opt r = false -> plain_rr_ok (r, x))).
+Print Assumptions C09_accepted_records_insertable.
